@@ -2,7 +2,7 @@
 # usage: tools/verify_holdout.sh — independently confirms every /verif/holdout/<id>-<m> in ONE scratch
 # worktree /tmp/vh (created here, removed at the end): demo passes on the clean tree, fails with the
 # change, build ok, whole suite passes with the change.  Writes holdout/<id>-<m>/verified.json.
-export GOFLAGS=-mod=mod GOPROXY=off GOSUMDB=off GOTOOLCHAIN=local; unset GOWORK
+export GOFLAGS="-mod=mod -trimpath" GOPROXY=off GOSUMDB=off GOTOOLCHAIN=local; unset GOWORK
 W=/tmp/vh
 git -C /repo worktree remove --force $W 2>/dev/null
 git -C /repo worktree add --detach $W HEAD >/dev/null 2>&1 || exit 2
